@@ -53,6 +53,25 @@ def _tw_mc(c, tier, which):
         c.mc_phase(mod, cfg, MC_NOTE % (name, k), workers=8, timeout=1500, heap="8g")
 
 
+MCD_NOTE = ("TimeWarpMC on distributed micro-model %s: the ranks' threads, the network (per sender-thread FIFO, any thread of the destination rank "
+            "receives) and the remote paths of process.c/mpi.c (remote send with identity stamping, remote anti-message, early anti-message list, "
+            "rollback for a remote anti-message) transcribed; every interleaving; checkpoint every %d events; C01/C02/C06 at quiescence")
+DIST_PROBES = [("Probe_NoRemoteAntiRollback", "a remote anti-message arrives after its event was processed (rollback)"),
+               ("Probe_NoEarlyAnti", "a remote anti-message is parked as early"),
+               ("Probe_NoEarlyAntiWhileEventInFlight", "a remote anti-message overtakes the event it cancels (event still in another receiver's hands)")]
+
+
+def _tw_mc_dist(c, tier):
+    """exhaustive TLC runs of the multi-rank micro-models + proof that the interesting scenarios are reachable in them"""
+    c.mc_phase("TimeWarpMC_d1.tla", "TimeWarpMC_d1_k1.cfg", MCD_NOTE % ("d1 (2 ranks x 1 thread, 2 LPs)", 1), workers=8, timeout=1500, heap="8g")
+    c.probe_phase("TimeWarpMC_d1.tla", "TimeWarpMC_d1_k1.cfg", DIST_PROBES[:2], workers=4, timeout=600, heap="4g")
+    if tier == "thorough":
+        c.mc_phase("TimeWarpMC_d1.tla", "TimeWarpMC_d1_k2.cfg", MCD_NOTE % ("d1", 2), workers=8, timeout=1500, heap="8g")
+        c.mc_phase("TimeWarpMC_d2.tla", "TimeWarpMC_d2_k1.cfg", MCD_NOTE % ("d2 (rank 0: 1 thread, rank 1: 2 threads racing on the network, 3 LPs)", 1),
+                   workers=16, timeout=3000, heap="16g")
+        c.probe_phase("TimeWarpMC_d2.tla", "TimeWarpMC_d2_k1.cfg", DIST_PROBES, workers=8, timeout=900, heap="8g")
+
+
 def _sys(pid, tier, seed, own, fams, nq, nt, cq, ct, emphasis=None, size_q="small", size_t="small", fixed=None, mc=None):
     c = syscamp.Campaign(pid, tier, seed, own_ids=own)
     try:
@@ -174,12 +193,15 @@ def check_C06(tier, seed):
         _tw_mc(c, tier, [("TimeWarpMC_m1.tla", "TimeWarpMC_m1.cfg", "m1 (2 LPs: cancel before extraction / after processing / while re-queued)", 2),
                          ("TimeWarpMC_m2.tla", "TimeWarpMC_m2_k2.cfg", "m2 (3 LPs, cascade of depth 2)", 2)] +
                ([("TimeWarpMC_m2.tla", "TimeWarpMC_m2_k1.cfg", "m2", 1), ("TimeWarpMC_m2.tla", "TimeWarpMC_m2_k3.cfg", "m2", 3)] if tier == "thorough" else []))
+        _tw_mc_dist(c, tier)
         # the real code on the same micro-models, under many schedules (distinct interleavings of the shared accesses)
         c.micro_phase("m1", 64 if tier == "quick" else 3000)
         c.micro_phase("m2", 64 if tier == "quick" else 3000)
+        c.micro_phase("d1", 48 if tier == "quick" else 2000, ranks=2, threads=1)
+        c.micro_phase("d2", 48 if tier == "quick" else 2000, ranks=2, threads=2)
         fams = ["fanout", "chain", "mixed", "fanout", "zerodelay", "chain", "ties"]
         c.run(_models(tier, seed, fams, 7, 30), 5 if tier == "quick" else 12, emphasis=em)
-        c.run(_models(tier, seed + 50, fams, 3, 15), 6 if tier == "quick" else 14, emphasis=DIST_EM)
+        c.run(_models(tier, seed + 50, fams + ["burst"], 4, 16), 6 if tier == "quick" else 14, emphasis=DIST_EM)
         return c.finish()
     finally:
         c.close()
@@ -396,6 +418,9 @@ def _driver_check(pid, tier, seed, runs, level="model_checking", rule="", assump
                 states += v["distinct"]
                 if v.get("res"):
                     lines += v["res"]["reached"]
+                dm = _re.search(r'"DIVERGENCES",\s*(\d+)', v["out"])
+                if dm:
+                    cov_extra["divergences_from_reference_spec"] = cov_extra.get("divergences_from_reference_spec", 0) + int(dm.group(1))
             if res["verdict"] == "ok":
                 if len(samples) < 3:
                     try:
@@ -469,8 +494,10 @@ def check_C14(tier, seed):
     mc = [("PartitionMC.tla", "PartitionMC.cfg" if tier == "quick" else "PartitionMC_big.cfg",
            "C14 on the specification for every triple up to the bound", {"workers": 1, "timeout": 1500})]
     return _driver_check("C14", tier, seed, runs, exhaustive=True, mc=mc,
-                         rule="every (LPs <= %d, ranks <= %d, threads <= %d) triple and every rank: one trace line with the tables computed by the "
-                              "real lp_global_init/partition_start/lid_to_nid/lid_to_rid; ranks with no LP and more threads than LPs included" % b,
+                         rule="every (LPs <= %d, ranks <= %d, threads <= %d) triple, every rank and every worker: the real lp_global_init/lp_init/lp_fini are run; "
+                              "one trace line per (triple, rank) with the ranges claimed, what an observer of the dispatcher saw (who initialises/finalises "
+                              "which LP) and the tables of lid_to_nid/lid_to_rid; ranks with no LP and more threads than LPs included; C14 is checked on "
+                              "the tables themselves, equality with Partition.tla only counted (divergences_from_reference_spec)" % b,
                          assumptions=["ownership in running systems (LP_INIT/execute/LP_FINI by the owner, routing of every event) is checked "
                                       "by the C14-labelled checks of TimeWarpTrace in every system-level run"])
 
@@ -696,9 +723,16 @@ def check_C02(tier, seed):
     c = syscamp.Campaign("C02", tier, seed, own_ids=["C02", "C01", "C03"])
     try:
         c.build(dist=True)
+        _tw_mc_dist(c, tier)
+        # the real code (renamed rank copies over the fake MPI) on the same micro-models, under many schedules
+        c.micro_phase("d1", 64 if tier == "quick" else 3000, ranks=2, threads=1)
+        c.micro_phase("d2", 64 if tier == "quick" else 3000, ranks=2, threads=2)
         em = lambda r: {"ranks": r.choice([2, 2, 3]), "threads": r.choice([1, 2, 2, 3]), "net": r.choice([0, 0, 1]),
                         "batch": r.choice([1, 1, 2, 8]), "period": r.choice([0, 0, 40])}
         c.run(_models(tier, seed, ["mixed", "fanout", "ties", "zerodelay", "pingpong", "nonmono", "chain"], 7, 36), 6 if tier == "quick" else 14, emphasis=em)
+        # several same-timestamp events sent to one remote LP and cancelled together while the receiver is busy: several early anti-messages at once
+        bem = lambda r: {"ranks": r.choice([2, 2, 3]), "threads": r.choice([1, 1, 2]), "net": r.choice([0, 1]), "batch": r.choice([1, 1, 4]), "period": 0}
+        c.run(_models(tier, seed + 30, ["burst"], 3, 16), 6 if tier == "quick" else 14, emphasis=bem)
         return c.finish(rule="generated models x (2-3 ranks) x (1-3 threads per rank) x checkpoint interval x batch x GVT period x scheduler seeds; the ranks are "
                              "renamed copies of the real core (distributed/mpi.c included) in one process over a fake MPI whose delivery order across sender threads, probe "
                              "misses and collective completion times are chosen by the scheduler; distinct by (model, configuration, schedule seed)",
